@@ -126,8 +126,15 @@ def c04(tier, seed):
     ]
     scns += C.fractional([scns[0], scns[1], scns[7], scns[10]])
     scns = _with_insertions(scns, n, seed)
+    # "pairwise statistics" of subtotals: the c13 outputs for insertion configurations
+    pw = _with_insertions([scenario("cat_x_cat.pw", [cat("A", 3, miss=[2]), cat("B", 3)]),
+                           scenario("cat_x_cat.sq.pw", [cat("A", 2), cat("B", 3)], squared_weights=True)],
+                          5 if tier == "quick" else 25, seed + 1)
     return dict(
-        jobs=_value_jobs("C04", "c04", scns, tier, seed),
+        jobs=_value_jobs("C04", "c04", scns, tier, seed)
+        + _value_jobs("C04", "c13", pw, tier, seed, single_pass=True,
+                      bfs_budget=300 if tier == "quick" else 5000,
+                      sim_budget=150 if tier == "quick" else 3000, sim_extra=2),
         rule="per scenario a seeded sample of insertion configurations (addend/subtrahend "
              "sets over valid, missing and stale ids; any anchor; view or transforms) x every "
              "bag of <= N respondents (BFS) and random larger bags; non-trivial = at least one "
@@ -759,9 +766,21 @@ def c06(tier, seed):
         scenario("mr_x_cat_x_cat_y", [mr("T", 2), cat("A", 2), cat("B", 2)], **y),
         scenario("cat_x_cat_x_cat.u", [cat("T", 2), cat("A", 2), cat("B", 2)], weighted=False),
     ]
+    yall = dict(y, ymeasures=("mean", "sum", "stddev", "median"))
+    scns.append(scenario("cat_x_mr_x_cat_y", [cat("T", 2), mr("A", 2), cat("B", 2)], **yall))
+    scns.append(scenario("cat_x_cat_x_mr_y", [cat("T", 3, miss=[1]), cat("A", 2), mr("B", 2)], **yall))
     jobs = _value_jobs("C06", "c06", scns, tier, seed, check_table_name=True,
                        bfs_budget=220 if tier == "quick" else 8000,
                        sim_budget=160 if tier == "quick" else 5000)
+    # the pairwise tests of each partition (squared weights are sliced per table element too)
+    jobs += _value_jobs("C06", "c13",
+                        [scenario("cat_x_cat_x_cat.sq", [cat("T", 3, miss=[1]), cat("A", 2), cat("B", 3)],
+                                  squared_weights=True),
+                         scenario("mr_x_cat_x_cat.sq", [mr("T", 2), cat("A", 2), cat("B", 2)],
+                                  squared_weights=True)],
+                        tier, seed, single_pass=True,
+                        bfs_budget=150 if tier == "quick" else 3000,
+                        sim_budget=100 if tier == "quick" else 2000, sim_extra=2)
 
     def custom(tier_, seed_, t0):
         import multicube
